@@ -36,7 +36,7 @@ _KEEP = []     # keeps fact terms alive so id() stays unique
 
 class State:
     __slots__ = ("env", "heap", "pc", "frontier", "lheap", "ghost", "events", "A0", "old", "version",
-                 "tag", "trace", "exc_stack", "facts", "qfacts")
+                 "tag", "trace", "exc_stack", "facts", "qfacts", "cm_caller_env")
 
     def __init__(self):
         self.env = {}
@@ -54,6 +54,7 @@ class State:
         self.exc_stack = []
         self.facts = set()
         self.qfacts = set()
+        self.cm_caller_env = None
 
     def fork(self):
         s = State.__new__(State)
@@ -72,6 +73,7 @@ class State:
         s.exc_stack = list(self.exc_stack)
         s.facts = set(self.facts)
         s.qfacts = set(self.qfacts)
+        s.cm_caller_env = self.cm_caller_env
         return s
 
     # heap ---------------------------------------------------------------
